@@ -255,7 +255,7 @@ def kind_obligations(ctx):
             ctx.broken('satisfiable:' + k['name'], {'what': 'the declared kinds admit no canonical input (vacuous obligation?)',
                                                     'answer': sat, 'line': lines[pos - 5][:600]},
                        sig={'obligation': 'satisfiable', 'kernel': k['name']})
-        waived_txt = {w['site'] for w in report[k['name']]['waived']}
+        waived_txt = {w['site'] for w in report[k['name']]['waived'] + report[k['name']]['unexpected']}
         for e in execs:
             ctx.count('ir_exec:' + e.split(' ')[0])
             if e.startswith('uninit'):
@@ -371,16 +371,27 @@ class Worker:
             self.start()
             self.proc.stdin.write((json.dumps(task) + '\n').encode())
             self.proc.stdin.flush()
+        c0 = self._cpu()
         r = self._read(limit)
         if r == 'timeout':
+            used = self._cpu() - c0
             self.stop()
-            return {'id': task['id'], 'status': 'timeout', 'limit': limit}
+            return {'id': task['id'], 'status': 'timeout', 'limit': limit, 'cpu_used_s': round(used, 2)}
         if r is None:
             rc = self.proc.wait()
             tail = self.err_tail()
             self.proc = None
             return {'id': task['id'], 'status': 'crash', 'rc': rc, 'stderr': tail}
         return r
+
+    def _cpu(self):
+        """CPU seconds (user + system, all threads) the worker process has used so far"""
+        try:
+            with open('/proc/%d/stat' % self.proc.pid) as fh:
+                f = fh.read().rsplit(')', 1)[1].split()
+            return (int(f[11]) + int(f[12])) / os.sysconf('SC_CLK_TCK')
+        except Exception:
+            return 0.0
 
     def err_tail(self):
         try:
@@ -446,6 +457,26 @@ def run_pool(root, tasks, limit, nworkers, monitor=False, tag='p', max_timeouts_
                     elif r2['status'] in ('timeout', 'crash'):
                         r = r2
                         r['confirmed'] = True
+                    elif r['status'] == 'crash':
+                        # not reproduced at once: heap corruption after an out-of-bounds write is not deterministic;
+                        # four more fresh processes before the crash is dropped
+                        deaths = 1
+                        for _ in range(4):
+                            w3 = Worker(root, '%s%df' % (tag, k), monitor)
+                            try:
+                                r3 = w3.run(t, 2 * limit)
+                            finally:
+                                w3.stop()
+                            if r3['status'] == 'crash':
+                                deaths += 1
+                                last = r3
+                        if deaths >= 2:
+                            r = last
+                            r['confirmed'] = True
+                            r['flaky'] = '%d of 6 runs died' % deaths
+                        else:
+                            r2['first_attempt'] = r['status']
+                            r = r2
                     else:
                         r2['first_attempt'] = r['status']
                         r = r2
@@ -548,8 +579,11 @@ def degenerate_graphs(rng):
 
 def random_graphs(rng, count):
     out = []
-    for name, n, es, w in graphs.suite(rng, count, 3, 12, weights=[1, 1, 2, 3]):
-        out.append(gdict(name + '_r%d' % len(out), _csr(n, es, w)))
+    for c in range(count):
+        weights = [[1, 1, 2, 3], [0.5, 1, 2, 4], [1e-6, 1, 1e6], [0.1, 0.2, 0.3, 0.7]][c % 4]
+        for name, n, es, w in graphs.suite(rng, 1, 3, 12, kinds=[(graphs.UNDIRECTED_KINDS + graphs.DIRECTED_KINDS)[c % 14]],
+                                           weights=weights):
+            out.append(gdict(name + '_r%d' % len(out), _csr(n, es, w)))
     return out
 
 
@@ -688,6 +722,18 @@ def boundary_cases(rng, quick):
         if rng.random() < 0.5:
             params['resolution'] = 0
         out.append((algo, gdict('tol0_%s%d' % ('w', n), a), {'params': params}))
+    rect = gdict('rect_3x4b', _csr(3, [(0, 0), (0, 1), (1, 1), (2, 3), (2, 2)], m=4))
+    sq = gdict('path5b', _csr(5, graphs.structured(rng, 'path', 5)))
+    for algo in ('Propagation', 'DiffusionClassifier', 'PageRankClassifier', 'NNClassifier'):
+        out.append((algo, rect, {'labels_row': {'0': 0, '2': 1}}))
+        out.append((algo, rect, {'labels_col': {'0': 0, '3': 1}}))
+        out.append((algo, rect, {'labels_row': {'0': 5}, 'labels_col': {'1': 7}}))
+        out.append((algo, sq, {'labels_vec': [-1, 0, -1, 1, -1]}))
+        out.append((algo, sq, {'labels_vec': [-1, -1, -1, -1, -1]}))
+        out.append((algo, sq, {'labels_vec': [3, 3, 3, 3, 3]}))
+    for algo in ('Louvain', 'Leiden', 'Paris', 'PageRank', 'LouvainHierarchy', 'HITS', 'Spectral', 'SVD', 'KCenters'):
+        out.append((algo, sq, {'force_bipartite': True}))
+        out.append((algo, rect, {'force_bipartite': True}))
     path3 = gdict('path3', _csr(3, [(0, 1), (1, 0), (1, 2), (2, 1)]))
     path5 = gdict('path5', _csr(5, graphs.structured(rng, 'path', 5)))
     for g in (path3, path5):
@@ -730,7 +776,13 @@ def judge(ctx, tasks, results, flavour):
         ctx.count('%s:%s' % (flavour, st if st != 'exc' else 'raises:' + str(r.get('exc'))))
         ctx.count('entry:' + t['algo'])
         if st == 'timeout':
-            kind = 'timeout'
+            # the verdict is on CPU time: a worker that was starved by the rest of the machine did not hang (review L3)
+            if r.get('cpu_used_s', r.get('limit', 0)) >= 0.5 * r.get('limit', 0):
+                kind = 'timeout'
+            else:
+                ctx.count('%s:timeout-starved' % flavour)
+                _STATE.setdefault('starved', []).append('%s on %s: %.1f s of CPU in %d s' % (
+                    t['algo'], t['graph']['name'], r.get('cpu_used_s', 0), r.get('limit', 0)))
         elif st == 'crash':
             if r.get('confirmed'):
                 kind = 'crash'
@@ -796,7 +848,7 @@ def contract_lines(ctx, tasks, results):
                            sig={'obligation': 'ir_exec', 'kernel': kn, 'answer': 'uninit'})
         elif e.startswith('oob'):
             site = desc[kn]['sites'][int(e.split(' ')[1])]['text']
-            if site not in {w['site'] for w in report.get(kn, {}).get('waived', [])}:
+            if site not in {w['site'] for w in report.get(kn, {}).get('waived', []) + report.get(kn, {}).get('unexpected', [])}:
                 raise ToolFailure('IR run out of bounds at a kinded site (contradicts kinds_sound): %s %s' % (kn, e))
         elif e.split(' ')[0] not in ('ok', 'done', 'out'):
             raise ToolFailure('c17.exec -> %r for %r' % (e, ln[:200]))
@@ -982,11 +1034,10 @@ def run(ctx):
     timed('kernel_models', kernel_model_cases, ctx)
     timed('scaling', scaling_probe, ctx)
     timed('stream_plain', stream, ctx, 'plain', ctx.quick, monitor=True)
-    if (not ctx.quick) or checked_is_cheap():
-        timed('stream_checked', stream, ctx, 'checked', ctx.quick, monitor=False)
-    else:
-        ctx.note('bounds-checked overlay not built yet: checked stream skipped in the quick tier')
+    timed('stream_checked', stream, ctx, 'checked', ctx.quick, monitor=False)
     ctx.extra['phases_s'] = phases
+    if _STATE.get('starved'):
+        raise ToolFailure('workers were starved of CPU (machine too loaded for the wall-clock limit): %s' % _STATE['starved'][:3])
 
 
 def _as_csr(g):
